@@ -91,7 +91,7 @@ Print Assumptions C16_cli_source_only_given_flags.
 
 (* a value of the wrong type is rejected, not replaced by a lower source or the default *)
 Theorem C16_wrong_type_rejected :
-  forall cwd rc ty v src, yval_has_type ty v = false -> ty <> TOptSeq \/ is_ystr v = false ->
+  forall cwd rc ty v src, yval_has_type ty v = false -> known_exception ty v = false ->
     convert cwd rc ty (Some (v, src)) = CTypeError.
 Proof. exact wrong_type_rejected. Qed.
 Print Assumptions C16_wrong_type_rejected.
@@ -99,17 +99,45 @@ Print Assumptions C16_wrong_type_rejected.
 Theorem C16_wrong_type_not_replaced :
   forall cwd pre src post k ty v, In (k, ty) template -> Forall (unset k) pre ->
     assoc k (src_vals src) = Some v -> yval_has_type ty v = false ->
-    ty <> TOptSeq \/ is_ystr v = false ->
+    known_exception ty v = false ->
     settings_of cwd (pre ++ src :: post) template = None.
 Proof. exact wrong_type_not_replaced. Qed.
 Print Assumptions C16_wrong_type_not_replaced.
 
-(* known finding F15: a string given for exclude_filters is accepted (full statement refuted) *)
-Theorem C16_exclude_filters_string_is_accepted_refuted :
-  forall cwd rc, exists v src, yval_has_type TOptSeq v = false
-                               /\ convert cwd rc TOptSeq (Some (v, src)) <> CTypeError.
-Proof. exact C16_exclude_filters_string_refuted. Qed.
-Print Assumptions C16_exclude_filters_string_is_accepted_refuted.
+(* the two places where the TEMPLATE accepts a value outside the option's type *)
+Theorem C16_known_exception_spec :
+  forall ty v, known_exception ty v = true
+    <-> (ty = TOptSeq /\ is_ystr v = true) \/ (ty = TStrSeq /\ is_ymap v = true).
+Proof. exact known_exception_spec. Qed.
+Print Assumptions C16_known_exception_spec.
+
+(* (1) a string for exclude_filters passes the template (a str is a Sequence) ... *)
+Theorem C16_exclude_filters_string_accepted_by_template_alone :
+  forall cwd rc x src, yval_has_type TOptSeq (YStr x) = false
+                       /\ convert cwd rc TOptSeq (Some (YStr x, src)) = COk (CStrs []).
+Proof. exact exclude_filters_string_accepted_by_template_alone. Qed.
+Print Assumptions C16_exclude_filters_string_accepted_by_template_alone.
+
+(* ... but main() validates the exclude patterns of EVERY source (after the repair of F15): a value
+   that is not a list of strings, in any source, is rejected *)
+Theorem C16_exclude_wrong_type_rejected :
+  forall stack key,
+    (exists src v, In src stack /\ assoc key (src_vals src) = Some v /\ excl_value_ok v = false) ->
+    all_contents stack key = None.
+Proof. exact exclude_wrong_type_rejected. Qed.
+Print Assumptions C16_exclude_wrong_type_rejected.
+
+Theorem C16_exclude_accepted_iff_all_sources_ok :
+  forall stack key, all_contents stack key <> None <-> forallb (excl_src_ok key) stack = true.
+Proof. exact exclude_accepted_iff_all_sources_ok. Qed.
+Print Assumptions C16_exclude_accepted_iff_all_sources_ok.
+
+(* (2) known finding F27: a mapping given for rst.headers is accepted, its keys are used *)
+Theorem C16_headers_mapping_is_accepted_refuted :
+  forall cwd rc, exists ks src, yval_has_type TStrSeq (YMap ks) = false
+                                /\ convert cwd rc TStrSeq (Some (YMap ks, src)) = COk (CStrs ks).
+Proof. exact C16_headers_mapping_refuted. Qed.
+Print Assumptions C16_headers_mapping_is_accepted_refuted.
 
 Theorem C16_well_typed_settings_accepted :
   forall cwd upper, forallb (src_well_typed template) upper = true ->
@@ -119,7 +147,7 @@ Print Assumptions C16_well_typed_settings_accepted.
 
 (* exclude patterns: the union over all sources, highest priority first *)
 Theorem C16_exclude_is_union :
-  forall stack key, forallb (list_or_unset key) stack = true ->
+  forall stack key, forallb (excl_src_ok key) stack = true ->
     all_contents stack key = Some (expected_union key stack).
 Proof. exact exclude_is_union. Qed.
 Print Assumptions C16_exclude_is_union.
